@@ -7,6 +7,7 @@ use arc_swap_verif_rt as rt;
 
 use crate::api::Strat;
 use crate::h_core::{self, RwCfg, WriteOp::*};
+use crate::h_more::{self, CasKind, RcuKind};
 use crate::runner::Inst;
 use crate::varc::AllocMode::{self, *};
 
@@ -66,10 +67,170 @@ fn rw_family<S: Strat>(out: &mut Vec<Inst>, fill: bool) {
     }
 }
 
+fn more_family<S: Strat + arc_swap::strategy::Strategy<crate::api::V2> + arc_swap::strategy::CaS<crate::api::V2>>(out: &mut Vec<Inst>, fill: bool) {
+    let path = if S::NAME == "nofast" { "nofast" } else if fill { "full" } else { "fast" };
+    let slots = crate::api::SLOTS;
+    for mode in [Fresh, Reuse] {
+        let m = mode_name(mode);
+        // guards held across writes: only meaningful without the filler trick
+        if !fill {
+            for g in [1usize, slots, slots + 1] {
+                out.push(inst(
+                    format!("held{}:{}:{}", g, path, m),
+                    &["C01", "C02", "C03", "C07", "C08", "C09", "C10", "C13"],
+                    mode,
+                    2,
+                    "R holds g guards, then {load, deref all, release in chosen order, one via Guard::into_inner} || W{store}",
+                    move || h_more::held::<S>(g, false),
+                ));
+            }
+            out.push(inst(
+                format!("held{}x2:{}:{}", slots, path, m),
+                &["C01", "C02", "C03", "C07", "C10"],
+                mode,
+                3,
+                "R holds S guards, then {load, deref, release, into_inner} || W{store, store}",
+                move || h_more::held::<S>(slots, true),
+            ));
+            for g in [1usize, slots + 1] {
+                for into in [false, true] {
+                    out.push(inst(
+                        format!("consume{}{}:{}:{}", g, if into { "i" } else { "d" }, path, m),
+                        &["C01", "C02", "C04", "C07", "C09", "C10", "C13"],
+                        mode,
+                        1,
+                        "R holds g guards {deref, drop / into_inner} || main{into_inner | drop(container)}",
+                        move || h_more::consume::<S>(g, into),
+                    ));
+                }
+            }
+        }
+        for (k, kn, size) in [(CasKind::VsReader, "reader", 2u8), (CasKind::Aba, "aba", 3), (CasKind::Two, "two", 3), (CasKind::Miss, "miss", 2)] {
+            out.push(inst(
+                format!("cas_{}:{}:{}", kn, path, m),
+                &["C01", "C02", "C05", "C07", "C09", "C13"],
+                mode,
+                size,
+                "C{compare_and_swap(a => n)} || {reader | store b; store a | second compare_and_swap | store}",
+                move || h_more::cas_h::<S>(k, fill),
+            ));
+        }
+        for (k, kn, size) in [
+            (RcuKind::Two, "two", 3u8),
+            (RcuKind::VsStore, "store", 3),
+            (RcuKind::VsSwap, "swap", 3),
+            (RcuKind::VsReader, "reader", 2),
+            (RcuKind::Reentrant, "reentrant", 4),
+        ] {
+            out.push(inst(
+                format!("rcu_{}:{}:{}", kn, path, m),
+                &["C01", "C02", "C06", "C07", "C09", "C13"],
+                mode,
+                size,
+                "T1{rcu(+1)} || {rcu(+1) | store | swap | reader}; reentrant closure",
+                move || h_more::rcu_h::<S>(k, fill),
+            ));
+        }
+        for (wa, share) in [(false, false), (true, false), (false, true)] {
+            out.push(inst(
+                format!("iso{}{}:{}:{}", if wa { "_wa" } else { "" }, if share { "_shared" } else { "" }, path, m),
+                &["C01", "C02", "C07", "C12", "C13"],
+                mode,
+                if wa { 3 } else { 2 },
+                "R{load A} || W{swap B} (|| WA{store A}); optionally one value shared by A and B",
+                move || h_more::iso::<S>(fill, wa, share),
+            ));
+        }
+        out.push(inst(
+            format!("iso_types:{}:{}", path, m),
+            &["C01", "C12", "C13"],
+            mode,
+            2,
+            "R{load A, load_full A} || W{store B, swap B} with B of another pointee type",
+            move || h_more::iso_types::<S>(fill),
+        ));
+        out.push(inst(
+            format!("wrap1:{}:{}", path, m),
+            &["C13"],
+            mode,
+            2,
+            "generation counter 1..3 transactions before its wrap; R{2 loads} || W{store}; later thread",
+            move || h_more::wrap::<S>(1, 2, fill, true),
+        ));
+        out.push(inst(
+            format!("wrap_nested:{}:{}", path, m),
+            &["C13"],
+            mode,
+            2,
+            "W (fast slots full, generation 1 before wrap){store, store} || R{load on the fallback path}: the wrap happens in the load W does while helping R",
+            move || h_more::wrap_nested::<S>(fill),
+        ));
+        out.push(inst(
+            format!("wrap2:{}:{}", path, m),
+            &["C13"],
+            mode,
+            2,
+            "generation counter 2 transactions before its wrap; R{3 loads} || W{store}",
+            move || h_more::wrap::<S>(2, 3, fill, true),
+        ));
+    }
+    if !fill {
+        for g in [1usize, slots + 1] {
+            for ww in [false, true] {
+                out.push(inst(
+                    format!("guard_life{}{}:{}", g, if ww { "w" } else { "" }, path),
+                    &["C01", "C02", "C07", "C10", "C11", "C13"],
+                    Fresh,
+                    if ww { 4 } else { 3 },
+                    "T1 takes g guards and exits; T2 uses/drops them || T3 starts, claims the node, loads twice (|| W stores)",
+                    move || h_more::guard_life::<S>(g, ww),
+                ));
+            }
+        }
+        out.push(inst(
+            format!("churn_seq:{}", path),
+            &["C10", "C11", "C13"],
+            Fresh,
+            1,
+            "3 threads strictly one after another, each {load, store, drop guard, exit}",
+            move || h_more::churn_seq::<S>(3),
+        ));
+        out.push(inst(
+            format!("churn_par:{}", path),
+            &["C01", "C02", "C11", "C13"],
+            Fresh,
+            3,
+            "T1{load, exit} || T2{first use: load_full} || W{store}",
+            move || h_more::churn_par::<S>(),
+        ));
+        for ww in [false, true] {
+            out.push(inst(
+                format!("tls_gone{}:{}", if ww { "_w" } else { "" }, path),
+                &["C01", "C02", "C11", "C13"],
+                Fresh,
+                if ww { 3 } else { 1 },
+                "T{tls teardown; load; swap; drop; load_full} (|| W{store})",
+                move || h_more::tls_gone::<S>(ww),
+            ));
+        }
+        out.push(inst(
+            format!("dtor_uses_container:{}", path),
+            &["C11", "C13", "C18"],
+            Fresh,
+            1,
+            "pointee destructor {load, store on another container} runs inside store, with and without TLS",
+            move || h_more::dtor_uses_container::<S>(),
+        ));
+    }
+}
+
 pub fn all() -> Vec<Inst> {
     let mut v = Vec::new();
     rw_family::<DefaultStrategy>(&mut v, false);
     rw_family::<DefaultStrategy>(&mut v, true);
     rw_family::<NoFast>(&mut v, false);
+    more_family::<DefaultStrategy>(&mut v, false);
+    more_family::<DefaultStrategy>(&mut v, true);
+    more_family::<NoFast>(&mut v, false);
     v
 }
